@@ -38,9 +38,26 @@ func work(id int) int {
 	return s
 }
 
+func grandchild(tok int, id int, done chan int) {
+	hook.Start(tok)
+	done <- work(id)
+	hook.Exit(tok)
+}
+
 func named(tok int, id int, wg *sync.WaitGroup) {
 	hook.Start(tok)
-	hook.Ev("named", id, work(id))
+	a := work(id)
+	if hook.Choose(3) == 0 {
+		// a goroutine started by a goroutine; the parent goes on calling package-level
+		// functions after the child has exited
+		done := make(chan int)
+		go grandchild(hook.Spawn(), id+50, done)
+		b := <-done
+		hook.Y()
+		hook.Ev("named-nested", id, a, b, work(id+1), mid(id, 2))
+	} else {
+		hook.Ev("named", id, a)
+	}
 	wg.Done()
 	hook.Exit(tok)
 }
